@@ -72,6 +72,9 @@ func (m *Matcher) Loop() {
 				switch val := val.(type) {
 				case MatchRequest:
 					request = val
+					if verifOn {
+						verifMatch("slot", &val, nil, "kind", int(t))
+					}
 				default:
 					panic(fmt.Sprintf("Unexpected type: %T", val))
 				}
@@ -82,6 +85,9 @@ func (m *Matcher) Loop() {
 			break
 		}
 
+		if verifOn {
+			verifMatch("pick", &request, nil)
+		}
 		cacheCleared := false
 		if request.sort != m.sort || request.revision != m.revision {
 			m.sort = request.sort
@@ -104,6 +110,9 @@ func (m *Matcher) Loop() {
 				// Look up mergerCache
 				if cached, found := m.mergerCache[patternString]; found && cached.final == request.final {
 					merger = cached
+					if verifOn {
+						verifMatch("cachehit", &request, nil)
+					}
 				}
 			} else {
 				// Invalidate mergerCache
@@ -116,11 +125,17 @@ func (m *Matcher) Loop() {
 			merger, cancelled = m.scan(request)
 		}
 
+		if verifOn && cancelled {
+			verifMatch("cancelled", &request, nil)
+		}
 		if !cancelled {
 			if merger.cacheable() {
 				m.mergerCache[patternString] = merger
 			}
 			merger.final = request.final
+			if verifOn {
+				verifMatch("publish", &request, merger)
+			}
 			m.eventBox.Set(EvtSearchFin, merger)
 		}
 	}
@@ -186,6 +201,9 @@ func (m *Matcher) scan(request MatchRequest) (*Merger, bool) {
 				matches := request.pattern.Match(chunk, slab)
 				allMatches[idx] = matches
 				count += len(matches)
+				if verifOn {
+					verifGate("scan.chunk", idx, len(chunks))
+				}
 				if cancelled.Get() {
 					return
 				}
@@ -248,6 +266,9 @@ func (m *Matcher) Reset(chunks []*Chunk, patternRunes []rune, cancel bool, final
 		event = reqReset
 	} else {
 		event = reqRetry
+	}
+	if verifOn {
+		verifMatch("reset", &MatchRequest{chunks, pattern, final, sort, revision}, nil, "cancel", cancel)
 	}
 	m.reqBox.Set(event, MatchRequest{chunks, pattern, final, sort, revision})
 }
